@@ -231,6 +231,10 @@ def gen_sync_read(rng):
             if cb != "none":
                 stat[path] = (33188, len(content), 5)
             ops.append(dict(op="pull", path=path, cb=cb, dest=rng.choice(["bytesio", "file"])))
+            if ops[-1]["dest"] == "bytesio" and rng.random() < 0.3:
+                # the caller's BytesIO is not fresh (an earlier pull went into it, or it was pre-filled): written in place from its position
+                had = rand_bytes(rng, rng.choice([1, 10, 5000, 70000]))
+                ops[-1]["pre"] = (had, rng.choice([0, len(had), rng.randrange(0, len(had) + 1)]))
     split = rand_split(rng)
     data_chunk = rng.choice([1, 100, 4096, 65536])
     if (split and min(split) < 64) or data_chunk < 4096:
